@@ -17,6 +17,8 @@ type Sub struct {
 	S   string
 	B   bool
 	Arr []int64
+
+	owner *Fact // the fact whose probe state counts this object's probe methods (harness state, not fact data)
 }
 
 // Fact is the main fact type. Every field is exported so the engine can reach it.
@@ -101,7 +103,30 @@ type Probe struct {
 }
 
 // SetProbe attaches probe state.
-func (f *Fact) SetProbe(p *Probe) { f.pr = p }
+func (f *Fact) SetProbe(p *Probe) {
+	f.pr = p
+	f.adopt()
+}
+
+// adopt makes the probe methods of the reachable Sub objects count on this fact's probe.
+func (f *Fact) adopt() {
+	if f.Sub != nil {
+		f.Sub.owner = f
+	}
+	if s, ok := f.Any.(*Sub); ok && s != nil {
+		s.owner = f
+	}
+	for _, s := range f.Subs {
+		if s != nil {
+			s.owner = f
+		}
+	}
+	for _, s := range f.MSub {
+		if s != nil {
+			s.owner = f
+		}
+	}
+}
 
 // GetProbe returns probe state.
 func (f *Fact) GetProbe() *Probe { return f.pr }
@@ -196,7 +221,17 @@ func (f *Fact) Pick(x interface{}) string { return fmt.Sprintf("%T", x) }
 
 // Mk returns a fresh Sub with constant content (for call chains F.Mk(3).X).
 func (f *Fact) Mk(x int64) *Sub {
-	return &Sub{X: x, Y: float64(x) / 2, S: fmt.Sprintf("mk%d", x), B: x%2 == 0, Arr: []int64{x, x + 1, x + 2}}
+	return &Sub{X: x, Y: float64(x) / 2, S: fmt.Sprintf("mk%d", x), B: x%2 == 0, Arr: []int64{x, x + 1, x + 2}, owner: f}
+}
+
+// Kids returns fresh Sub objects with constant content (receivers selected from a call result: F.Kids()[0].PX(1)).
+func (f *Fact) Kids() []*Sub {
+	return []*Sub{{X: 1, S: "kid0", owner: f}, {X: 2, S: "kid1", B: true, owner: f}}
+}
+
+// Table is Kids as a map.
+func (f *Fact) Table() map[string]*Sub {
+	return map[string]*Sub{"k": {X: 3, S: "tk", owner: f}, "l": {X: 4, S: "tl", owner: f}}
 }
 
 // ---------------------------------------------------------------------------------------------
@@ -232,3 +267,22 @@ func (f *Fact) NilSub() *Sub { return nil }
 func (s *Sub) GetX() int64 { return s.X }
 
 func (s *Sub) Twice(v int64) int64 { return 2 * v }
+
+// Counted probes on a Sub (pure: the result depends on the arguments only).
+func (s *Sub) hit(name string, id int64) {
+	if s.owner != nil {
+		s.owner.hit(name, id)
+	}
+}
+
+// PX is a counted probe returning its id.
+func (s *Sub) PX(id int64) int64 { s.hit("PX", id); return id }
+
+// PBX is a counted boolean probe.
+func (s *Sub) PBX(id int64) bool { s.hit("PBX", id); return id%2 == 0 }
+
+// PVX is a counted probe returning its second argument.
+func (s *Sub) PVX(id, v int64) int64 { s.hit("PVX", id); return v }
+
+// PLabel is a counted probe returning a constant string.
+func (s *Sub) PLabel(id int64) string { s.hit("PLabel", id); return "label" }
